@@ -22,8 +22,11 @@ def main():
         sh("sed -i 's#path = \"/repo\"#path = \"%s\"#' %s/harness/Cargo.toml" % (repo, verif))
         t0 = time.time()
         r = sh("./check %s %s" % (pid, tier), cwd=verif, env=dict(os.environ, VERIF_SCRATCH_REPO=repo))
-        lines = [l for l in r.stdout.splitlines() if l.startswith(("VIOLATION", "KNOWN-FINDING", "TOOL-ERROR", "  key="))]
+        out_lines = r.stdout.splitlines()
+        lines = [l for l in out_lines if l.startswith(("VIOLATION", "TOOL-ERROR", "  key="))]
+        known = [l for l in out_lines if l.startswith("KNOWN-FINDING")]
         print("\n".join(l[:300] for l in lines[:12]))
+        print("(%d KNOWN-FINDING lines)" % len(known))
         print("seedtest: property=%s rc=%d wall=%ds" % (pid, r.returncode, time.time() - t0))
         if r.returncode == 2:
             print(r.stdout[-3000:])
